@@ -6,7 +6,7 @@ AREA = 'sort'
 MODEL_FILES = 'SortDefs.v (compare_strings, sort_list, sort_object, cJSONUtils_SortObject[CaseSensitive] on the Heap.v memory model)'
 RULE = ('objects of 0-40 members (a stream up to 200) over key pools with duplicate keys, case variants (a/A/Ab/aB), the empty key, keys that '
         'are prefixes of one another, bytes >= 0x80, control bytes; shapes: random, already sorted, strictly sorted, reversed, all equal, two '
-        'interleaved runs, sorted except one; members are numbers / strings / nested containers carrying a unique marker; both variants; '
+        'interleaved runs, sorted except one; members are numbers / strings / nested containers carrying a unique marker; both variants; a sample repeated while the allocator refuses every request during the sort (sorting needs no memory); '
         'every case sorts twice and then runs a follow-up edit history through the real API (append, insert, detach by index/key/last, '
         'replace by index/key, get, size, sort again, print) that is judged against a python list model; utilities that sort internally '
         '(GeneratePatches, GenerateMergePatch, patch "test") on document pairs followed by an append/detach probe on every container; '
